@@ -17,10 +17,14 @@ def describe(e):
         e["index"], e["d4"], e["encA"], e["encB"], e["map"], ", via Move" if e.get("moved") else "", got_str(e), e["exp"])
 
 
-def run_pairs(pid, tier, seed, ops, nconf, stride, only_nonuniform=False, l1_recheck=200):
-    """Returns (verdict, coverage dict pieces)."""
-    shapes, spath, pairs, metas = universe.build(tier)
-    out = os.path.join(vlib.BUILD, "work", pid)
+def run_pairs(pid, tier, seed, ops, nconf, stride, only_nonuniform=False, l1_recheck=200, general=False, v=None):
+    """Returns (verdict, coverage dict pieces).  general=True: the general-slope universe (answers by PlanarGeneral)."""
+    if general:
+        shapes, spath, pairs, metas = universe.build_general(tier)
+        out = os.path.join(vlib.BUILD, "work", pid, "general")
+    else:
+        shapes, spath, pairs, metas = universe.build(tier)
+        out = os.path.join(vlib.BUILD, "work", pid)
     os.makedirs(out, exist_ok=True)
     summ = json.loads(vlib.run_harness(["pairs", spath, pairs, out, seed, ops, nconf, stride], timeout=3000))
     capped = bool(summ.get("event_cap_hit"))   # more deviating calls than TLC is asked to explain: the first ones (in replay order) are explained
@@ -29,13 +33,14 @@ def run_pairs(pid, tier, seed, ops, nconf, stride, only_nonuniform=False, l1_rec
     total_events = len(events)
     if only_nonuniform:
         events = [e for e in events if not e["uniform"]]
-    v = vlib.Verdict(pid)
+    if v is None:
+        v = vlib.Verdict(pid)
     r = None
     expl = {"events": 0}
     if events:
         for i, e in enumerate(events):
             if i < l1_recheck and "sub0" in e["encA"] and "sub0" in e["encB"]:
-                e["chk"] = 1
+                e["chkg" if general else "chk"] = 1
         sel = os.path.join(out, "explain.ndjson")
         with open(sel, "w") as f:
             for e in events:
@@ -48,9 +53,9 @@ def run_pairs(pid, tier, seed, ops, nconf, stride, only_nonuniform=False, l1_rec
             e = evs[m[1] - 1]
             exp_l1, preds, site = m[2], m[3], m[4]
             got = got_str(e)
-            rec = {"property": pid, "event": {k: e[k] for k in e if k not in ("A0", "B0", "chk")}, "expected_L1": exp_l1,
+            rec = {"property": pid, "event": {k: e[k] for k in e if k not in ("A0", "B0", "chk", "chkg")}, "expected_L1": exp_l1,
                    "predicted_L2": preds, "site": site, "what": describe(e)}
-            if "chk" in e and exp_l1 != ("true" if e["exp"] else "false"):
+            if ("chk" in e or "chkg" in e) and exp_l1 != ("true" if e["exp"] else "false"):
                 raise vlib.Inconclusive("L1 re-derivation %s disagrees with the generated answer for %s" % (exp_l1, json.dumps(e)[:400]))
             if got == exp_l1:
                 continue  # cannot happen: only deviating calls are recorded
@@ -75,7 +80,7 @@ def run_pairs(pid, tier, seed, ops, nconf, stride, only_nonuniform=False, l1_rec
         "evaluations": summ["evaluations"],
         "distinct_nontrivial": summ["pairs"],
         "universe": {"shapes": len(shapes), "class_representatives_as_A": sum(s["a"] for s in shapes),
-                     "strata": {m["name"]: m["lines"] for m in metas[:-1]}, "pair_rows": metas[-1]["lines"]},
+                     "strata": {m["name"]: m["lines"] for m in metas[:-1]}, "pair_rows": metas[-1]["lines"], "general_slopes": general},
         "replayed_pairs": summ["pairs"], "configurations_per_pair": nconf, "pair_sampling_stride": stride,
         "mismatching_calls": summ["mismatching_calls"], "distinct_mismatches": summ["distinct_mismatches"], "deviations_sampled_for_explanation": total_events,
         "explained_by_L2": expl, "known_finding_hits": v.known_hits,
@@ -91,3 +96,17 @@ UNIVERSE_RULE = ("universe: every point, rectangle, octilinear line of <= 3 poin
                  "through geometry- and object-level calls with both receivers under the 8 lattice symmetries, random ring "
                  "rotations/reversals/closing-vertex variants, 3 index configurations, orbit maps, Move, and inflation. "
                  "distinct_nontrivial = replayed (A,B) pairs")
+
+
+GENERAL_RULE = ("general slopes: two- and three-point lines, triangles and simple quadrilaterals on the 4x4 lattice with at least one edge "
+                "that is not horizontal, vertical or diagonal (Gen_ShapesG; every 2-point line and triangle, every 4th 3-point line and "
+                "quadrilateral in the quick tier), together with every point and a sample of the rectangles, rings and holed polygons of "
+                "the octilinear universe; answers by PlanarGeneral (skeletons meet or a point of one lies in the other; containment by "
+                "cutting every skeleton segment of B at the skeleton of A with rational parameters and testing the midpoints, plus one "
+                "interior point per hole), which TLC shows equal to the witness-grid definition on octilinear pairs (theorem TG); "
+                "replayed like the octilinear universe")
+
+
+def general_cov(cov):
+    return {k: cov[k] for k in ("states", "transitions", "evaluations", "replayed_pairs", "universe", "mismatching_calls", "explained_by_L2",
+                                "configurations_per_pair") if k in cov} | {"rule": GENERAL_RULE}
